@@ -39,6 +39,7 @@ Tokens == <<
 >>
 
 RangeSeq(q) == {q[i] : i \in 1..Len(q)}
+IsIntArg(a) == Len(a) >= 1 /\ LET d == IF a[1] = 45 THEN Tail(a) ELSE a IN Len(d) >= 1 /\ \A i \in 1..Len(d) : d[i] \in 48..57
 
 \* single-point mutations of a command (argv): truncate at each position, delete / duplicate each argument,
 \* swap neighbours, replace each argument (not the name) by each token
@@ -48,12 +49,22 @@ Mutations(c) ==
   \cup {SubSeq(c, 1, i) \o SubSeq(c, i, Len(c)) : i \in 2..Len(c)}
   \cup {[c EXCEPT ![i] = c[i + 1], ![i + 1] = c[i]] : i \in 2..(Len(c) - 1)}
   \cup {[c EXCEPT ![i] = t] : i \in 2..Len(c), t \in RangeSeq(Tokens)}
+  \cup {[i \in 1..Len(c) |-> IF i >= 2 /\ IsIntArg(c[i]) THEN t ELSE c[i]] : t \in RangeSeq(Tokens)}   \* all integer arguments at once
+
+\* The bounded instances use their own key names (l1, h, s1, z, x, k ...); every valid command is mutated twice: as it is,
+\* and with its first key replaced by the key of the same family in the fixed initial state of the driver
+\* (str lst hsh st zs xs), so that the mutants meet a value of the expected type.
+FamilyKey(k) == IF Len(k) = 0 THEN <<115,116,114>>
+                ELSE CASE k[1] = 108 -> <<108,115,116>> [] k[1] = 104 -> <<104,115,104>> [] k[1] = 115 -> <<115,116>>
+                       [] k[1] = 122 -> <<122,115>>     [] k[1] = 120 -> <<120,115>>     [] OTHER -> <<115,116,114>>
+Rekey(c) == IF Len(c) >= 2 THEN [c EXCEPT ![2] = FamilyKey(c[2])] ELSE c
 
 Samples == { <<L_set, <<107>>, <<118>>, L_px, <<49>>>>, <<L_zadd, <<122>>, L_ch, <<49>>, <<97>>>>, <<L_lpos, <<108>>, <<97>>, L_rank, <<49>>>>,
              <<L_getrange, <<107>>, <<48>>, <<49>>>>, <<L_del, <<107>>>> }
 
 ASSUME PrintT("TOKENS " \o ToJson([t |-> Tokens]))
 ASSUME \A c \in Samples : PrintT("MUTSAMPLE " \o ToJson([c |-> c, m |-> SetToSeq(Mutations(c))]))
+ASSUME \A c \in Samples : PrintT("MUTSAMPLE " \o ToJson([c |-> Rekey(c), m |-> SetToSeq(Mutations(Rekey(c)))]))
 
 VARIABLE dummy
 Init == dummy = 0
